@@ -267,7 +267,7 @@ class CategoricalClassification:
 
         p = p / p.sum()
 
-        if ensure_rep and len(vec) < size:
+        if ensure_rep and len(vec) <= size:
             sampled_values = np.random.choice(vec, size=(size - len(vec)), p=p)
             sampled_values = np.append(sampled_values, vec)
         else:
